@@ -54,7 +54,7 @@ C13Cases == {SetSeq(s) : s \in SUBSET Rewrites} \cup {<<"cmtmid">>} \cup {<<"cmt
             \cup {<<"nsup">>, <<"nsup", "pfx">>, <<"nsup", "attr">>}
 
 (* C10: every text-valued parameter x every string of up to K1 character classes *)
-Params == {"persist", "persist-id", "cancel-persist-id", "log", "log-after-failed-write", "instance", "xpath", "xpath-get", "url-edit", "url-delete", "url-host",
+Params == {"persist", "persist-id", "persist-id-with-persist", "persist-with-persist-id", "cancel-persist-id", "log", "log-after-failed-write", "instance", "xpath", "xpath-get", "url-edit", "url-delete", "url-host",
            "text-config", "json-config", "set-config", "subtree-filter", "edit-fragment", "copy-fragment", "edit-opaque", "load-opaque"}
 Classes == {"plain", "lt", "gt", "amp", "quot", "apos", "delim", "nonascii", "space",
             (* values a "normaliser" would rewrite *)
@@ -65,7 +65,7 @@ C10Cases == {[param |-> p, classes |-> c] : p \in Params, c \in SeqsUpTo(Classes
 
 (* C14: mutation scripts over the message templates: operator, one or two positions (eighths of the message) *)
 Templates == {"hello", "reply-ok", "reply-errors", "reply-data", "reply-bare", "load-ok", "load-errors",
-              "reply-errors-ext", "reply-bare-error"}
+              "reply-errors-ext", "reply-bare-error", "load-count-only"}
 (* templates whose text is full of multi-byte characters: every byte position is cut / made invalid *)
 NonAscii == {"reply-nonascii", "reply-data-nonascii"}
 C14Cases ==
